@@ -211,7 +211,7 @@ func Run(sql string, tables map[string]*Table, optimize bool) (res Result) {
 		limitExpr = &e
 	}
 	// the csv / json branch of cmd/root.go
-	if len(orderExprs) > 0 || (limitExpr != nil && !plan.Schema.NoRetractions) {
+	if len(orderExprs) > 0 || !plan.Schema.NoRetractions {
 		exec = nodes.NewOrderSensitiveTransform(exec, orderExprs, logical.DirectionsToMultipliers(oo.OrderByDirections), limitExpr, plan.Schema.NoRetractions)
 	} else if limitExpr != nil {
 		exec = nodes.NewLimit(exec, *limitExpr)
